@@ -493,7 +493,7 @@ class Message:
             # sequentially clocks out data
             raise error.NotImplemented()
 
-        if next_block.opt.etag != self.opt.etag:
+        if next_block.opt.etag != self.opt.etag or next_block.code != self.code:
             raise error.ResourceChanged()
 
         self.payload += next_block.payload
